@@ -72,6 +72,14 @@ func (cl *cluster) stateOracles(v controller.VerifView) {
 			bad("reader-index", fmt.Sprintf("readers %v (n=%d), RW backends %v", gr, v.NReaders, wantR))
 		}
 	}
+	if (cl.wants("c05") || cl.wants("c18") || cl.wants("c13")) && quiescent {
+		// ERR is a transient mark: once every monitor wake-up has been delivered a failed replica is detached
+		for _, r := range v.Replicas {
+			if r.Mode == types.ERR {
+				cl.violate("failed-replica-not-detached", "err-replica-lingers", fmt.Sprintf("replica %s is still listed in mode ERR although no monitor wake-up is pending; replicas=%v", r.Address, v.Replicas))
+			}
+		}
+	}
 	if cl.wants("c03") && quiescent {
 		if (len(rw) >= cl.quorum()) == v.ReadOnly {
 			cl.violate("readonly-flag", fmt.Sprintf("readonly-flag:%v", v.ReadOnly), fmt.Sprintf("ReadOnly=%v with %d RW replicas of RF=%d (quorum %d); replicas=%v", v.ReadOnly, len(rw), cl.cfg.RF, cl.quorum(), v.Replicas))
